@@ -1624,6 +1624,37 @@ class AsType(Elemwise):
             meta = clear_known_categories(meta)
         return meta
 
+    def _filter_passthrough_available(self, parent, dependents):
+        if not super()._filter_passthrough_available(parent, dependents):
+            return False
+        # The predicate is evaluated on the CAST values. It may only be moved
+        # below the cast if the columns it reads keep their values, i.e. are
+        # not cast or are cast safely (int -> float, float32 -> float64, ...);
+        # a lossy cast such as float -> int changes the outcome of comparisons.
+        predicate = getattr(parent, "predicate", None)
+        if not isinstance(predicate, Expr):
+            return False
+        dtypes = self.operand("dtypes")
+        meta = self.frame._meta
+
+        def keeps_values(col):
+            target = dtypes.get(col) if isinstance(dtypes, dict) else dtypes
+            if target is None:
+                return True
+            try:
+                source = meta[col].dtype if meta.ndim == 2 else meta.dtype
+                return bool(np.can_cast(source, np.dtype(target), casting="safe"))
+            except Exception:
+                return False
+
+        for node in predicate.walk():
+            for dep in node.dependencies():
+                if dep._name == self._name:
+                    cols = node.columns if isinstance(node, Projection) else self.columns
+                    if not all(keeps_values(col) for col in cols):
+                        return False
+        return True
+
     def _simplify_up(self, parent, dependents):
         if isinstance(parent, Filter) and self._filter_passthrough_available(
             parent, dependents
